@@ -3,14 +3,20 @@ NOTES = ("All checks are driven by /verif/check (python3, stdlib). Specification
          "/verif/harness (binary gv) and the goml CLI are rebuilt from /repo's working tree on every run with --cfg goml_verif. "
          "Exit 0 = held (KNOWN-FINDING lines for defects listed in known_findings.json), 1 = VIOLATION, 2 = tool error.")
 ENGINES = [
-    {"name": "tlc", "path": "/verif/spec", "serves_properties": ["C01", "C02", "C05", "C06", "C07", "C08", "C09", "C10", "C13", "C15", "C17"],
+    {"name": "tlc", "path": "/verif/spec", "serves_properties": ["C01", "C02", "C05", "C06", "C07", "C08", "C09", "C10", "C13", "C15", "C17", "C18"],
      "kind_free_text": "TLA+ specifications model-checked / simulated by TLC 1.8"},
-    {"name": "gv", "path": "/verif/harness", "serves_properties": ["C01", "C02", "C05", "C06", "C07", "C08", "C09", "C10", "C13", "C15", "C17"],
+    {"name": "gv", "path": "/verif/harness", "serves_properties": ["C01", "C02", "C05", "C06", "C07", "C08", "C09", "C10", "C13", "C15", "C17", "C18"],
      "kind_free_text": "Rust conformance harness with path dependencies on /repo/crates/*, and the goml CLI built from /repo"},
 ]
 PENDING = "check not built yet in this round (planned in DESIGN.md §4); not a claim that the technique cannot apply"
 NOT_APPLICABLE = {p: PENDING for p in ["C%02d" % i for i in range(1, 21)]}
 CHECKS = {
+    "C18": {
+        "level": "model_checking",
+        "technique": "Derive.tla (prescribed renderings + JSON recogniser/decoder) checked by TLC on enumerated values (Decode(ToJson(v)) = v); derive templates evaluated by GomlSem.tla+Derive.tla vs GoSem.tla on the real derived code",
+        "text": "Derive.tla prescribes to_json/to_string on values and contains an RFC 8259 recogniser and decoder; TLC checks on ~900 values with all strings of length <= 2 over a hostile alphabet that the prescribed JSON is well formed and decodes back to the value. Structs/enums with every primitive field type, nesting, recursion, field names coinciding with generated identifiers (tag, fields, field0), empty structs and strings containing each special character are derived and run; the Go output must equal the prescription. Underivable field types and generic types must be rejected by a derive-stage diagnostic.",
+        "note": "Special characters are only denotable through multi-line string literals today (so test strings contain a line feed). Floats on the dyadic fragment.",
+    },
     "C17": {
         "level": "translation_validation",
         "technique": "call-form templates per receiver kind evaluated by GomlSem.tla (dispatch on the receiver's type, dyn packages) and by GoSem.tla on the emitted Go; rejection templates for ambiguity / missing impl",
